@@ -129,6 +129,113 @@ class _AllAnyOfDisplay(ast.NodeTransformer):
             out = ast.IfExp(test=test, body=k, orelse=out)
         return ast.copy_location(out, node)
 
+    def visit_FunctionDef(self, node):
+        # `hit = next(<gen>, None)` whose only uses are `hit is [not] None`:
+        # the call written where it is tested
+        import copy
+        cands = {}
+        for st in ast.walk(node):
+            if isinstance(st, ast.Assign) and len(st.targets) == 1 and \
+                    isinstance(st.targets[0], ast.Name) and isinstance(
+                        st.value, ast.Call) and isinstance(
+                            st.value.func, ast.Name) and \
+                    st.value.func.id == 'next' and len(st.value.args) == 2:
+                cands.setdefault(st.targets[0].id, []).append(st)
+        for name, sts in list(cands.items()):
+            if len(sts) != 1:
+                continue
+            loads = [n for n in ast.walk(node) if isinstance(n, ast.Name)
+                     and n.id == name and isinstance(n.ctx, ast.Load)]
+            tests = [c for c in ast.walk(node) if isinstance(c, ast.Compare)
+                     and len(c.ops) == 1 and isinstance(
+                         c.ops[0], (ast.Is, ast.IsNot)) and isinstance(
+                             c.left, ast.Name) and c.left.id == name
+                     and isinstance(c.comparators[0], ast.Constant)
+                     and c.comparators[0].value is None]
+            stores = [n for n in ast.walk(node) if isinstance(n, ast.Name)
+                      and n.id == name and isinstance(n.ctx, ast.Store)]
+            if not tests or len(loads) != len(tests) or len(stores) != 1:
+                continue
+            for c in tests:
+                c.left = copy.deepcopy(sts[0].value)
+
+            class _Drop(ast.NodeTransformer):
+                def visit_Assign(self, n, _st=sts[0]):
+                    return ast.Pass() if n is _st else n
+            node = _Drop().visit(node)
+        return self.generic_visit(node)
+
+    def visit_Compare(self, node):
+        # next((v for v in X if P(v)), None) is not None  is  any(P(v) for v
+        # in X)  -  when P calls a method on v (so a v that satisfies P is
+        # not None itself)
+        self.generic_visit(node)
+        if len(node.ops) != 1 or not isinstance(
+                node.ops[0], (ast.Is, ast.IsNot)):
+            return node
+        a, b = node.left, node.comparators[0]
+        if isinstance(a, ast.Constant) and a.value is None:
+            a, b = b, a
+        if not (isinstance(b, ast.Constant) and b.value is None
+                and isinstance(a, ast.Call) and isinstance(a.func, ast.Name)
+                and a.func.id == 'next' and len(a.args) == 2
+                and not a.keywords and isinstance(a.args[1], ast.Constant)
+                and a.args[1].value is None and isinstance(
+                    a.args[0], ast.GeneratorExp)
+                and len(a.args[0].generators) == 1):
+            return node
+        g = a.args[0].generators[0]
+        if not (isinstance(g.target, ast.Name) and g.ifs and isinstance(
+                a.args[0].elt, ast.Name)
+                and a.args[0].elt.id == g.target.id and any(
+                    isinstance(n, ast.Attribute) and isinstance(
+                        n.value, ast.Name) and n.value.id == g.target.id
+                    for c in g.ifs for n in ast.walk(c))):
+            return node
+        test = g.ifs[0] if len(g.ifs) == 1 else ast.BoolOp(
+            op=ast.And(), values=list(g.ifs))
+        out = ast.Call(func=ast.Name(id='any', ctx=ast.Load()), args=[
+            ast.GeneratorExp(elt=test, generators=[ast.comprehension(
+                target=g.target, iter=g.iter, ifs=[], is_async=0)])],
+            keywords=[])
+        if isinstance(node.ops[0], ast.Is):
+            out = ast.UnaryOp(op=ast.Not(), operand=out)
+        return ast.copy_location(out, node)
+
+    def visit_Module(self, node):
+        # module-level NAME = (const, const), bound once
+        self._pairs = {}
+        count = {}
+        for st in node.body:
+            if isinstance(st, ast.Assign):
+                for tg in st.targets:
+                    if isinstance(tg, ast.Name):
+                        count[tg.id] = count.get(tg.id, 0) + 1
+                        if isinstance(st.value, (ast.Tuple, ast.List)) and \
+                                len(st.value.elts) == 2 and all(
+                                    isinstance(e, ast.Constant)
+                                    for e in st.value.elts):
+                            self._pairs[tg.id] = st.value
+        self._pairs = {k: v for k, v in self._pairs.items()
+                       if count.get(k) == 1}
+        return self.generic_visit(node)
+
+    def visit_Subscript(self, node):
+        # (A, B)[bool(x)]  is  B if x else A
+        self.generic_visit(node)
+        v, k = node.value, node.slice
+        if isinstance(v, ast.Name) and v.id in getattr(self, '_pairs', {}):
+            v = self._pairs[v.id]
+        if isinstance(node.ctx, ast.Load) and isinstance(
+                v, (ast.Tuple, ast.List)) and len(v.elts) == 2 and \
+                isinstance(k, ast.Call) and isinstance(
+                    k.func, ast.Name) and k.func.id == 'bool' and len(
+                        k.args) == 1 and not k.keywords and all(
+                    isinstance(e, ast.Constant) for e in v.elts):
+            return ast.copy_location(ast.IfExp(
+                test=k.args[0], body=v.elts[1], orelse=v.elts[0]), node)
+        return node
+
     def visit_JoinedStr(self, node):
         # f'{x}' with nothing around it and no conversion / format spec is
         # format(x, ''), which is str(x) for the built-in types
